@@ -312,7 +312,12 @@ func gTriples(ps [][3]int) string {
 
 // the Gallina case: the module as written + what was observed
 func viewsCase(apps []vApp, o *viewsObs) string {
-	var as, os []string
+	return fmt.Sprintf("(%s, %s, %s)", viewsAppsTerm(apps), viewsObsTerm(apps, o), gTriples(o.typed))
+}
+
+// the module as written: list of (name, declared members, views, mixins)
+func viewsAppsTerm(apps []vApp) string {
+	var as []string
 	for _, a := range apps {
 		var mem [][2]int
 		for _, t := range a.Types {
@@ -330,7 +335,7 @@ func viewsCase(apps []vApp, o *viewsObs) string {
 					pay[i] = 1000 + p
 				}
 				if s.Let {
-					ss = append(ss, fmt.Sprintf("(Some %d,%s)", 100*v.Name+s.Var, gInts(pay))) // scope key <view name>:l<var>
+					ss = append(ss, fmt.Sprintf("(Some %d,%s)", letKey(v.Name, s.Var), gInts(pay))) // scope key <view name>:l<var>
 				} else {
 					ss = append(ss, fmt.Sprintf("(None,%s)", gInts(pay)))
 				}
@@ -338,9 +343,20 @@ func viewsCase(apps []vApp, o *viewsObs) string {
 			vs = append(vs, fmt.Sprintf("(%d,%d,%s,[%s])", v.Name, v.ID, common.GBool(v.Abs), strings.Join(ss, ";")))
 		}
 		as = append(as, fmt.Sprintf("(%d,%s,[%s],%s)", a.Idx, gPairs(mem), strings.Join(vs, ";"), gInts(a.Mix)))
+	}
+	return "[" + strings.Join(as, ";") + "]"
+}
+
+// the scope key of `let l<var>` in the top transform of view w<view>
+func letKey(view, v int) int { return 100*view + v }
+
+// per application: member table and view table as observed
+func viewsObsTerm(apps []vApp, o *viewsObs) string {
+	var os []string
+	for _, a := range apps {
 		os = append(os, fmt.Sprintf("(%d,%s,%s)", a.Idx, gPairs(o.mem[a.Idx]), gPairs(o.views[a.Idx])))
 	}
-	return fmt.Sprintf("([%s], [%s], %s)", strings.Join(as, ";"), strings.Join(os, ";"), gTriples(o.typed))
+	return "[" + strings.Join(os, ";") + "]"
 }
 
 // ------------------------------------------------------------------ gate reader (after harness/cmd/c05)
@@ -712,6 +728,13 @@ func serveRound3(q *req, r *rep) bool {
 					r.Outcomes = append(r.Outcomes, o)
 				}
 			}
+		case "chain": // ONE parser for all jobs, one after another
+			p := parse.NewParser()
+			for _, j := range q.Jobs {
+				m, err := p.ParseString(q.Specs[j].Text)
+				o, _ := outcomeOf(m, err)
+				r.Outcomes = append(r.Outcomes, o)
+			}
 		case "conc": // ONE parser for all goroutines
 			p := parse.NewParser()
 			r.Outcomes = make([]outcome, len(q.Jobs))
@@ -1003,6 +1026,31 @@ func (r *runner) parserShared(specs []spec, base []outcome, k, procs int, offSee
 			}
 		}
 	}
+	// (a') ONE parser for all specs, in a random order with repetitions: whatever the parser compiled before, every
+	// compilation must give what a parser of its own gives
+	{
+		var jobs []int
+		for rep := 0; rep < 3; rep++ {
+			jobs = append(jobs, all...)
+		}
+		rng := common.NewRng(offSeed)
+		for i := len(jobs) - 1; i > 0; i-- {
+			j := rng.Intn(i + 1)
+			jobs[i], jobs[j] = jobs[j], jobs[i]
+		}
+		rp := replay{Kind: "pshare-chain", Specs: specs, Jobs: jobs}
+		out, ok := r.call(req{Op: "pshare", R3: &r3req{Mode: "chain"}, Specs: specs, Jobs: jobs}, rp)
+		if ok && len(out.Outcomes) == len(jobs) {
+			for i, j := range jobs {
+				c.Count(fmt.Sprintf("pshare-chain:%d:%s", i, specs[j].name()), true)
+				if o := out.Outcomes[i]; o != base[j] {
+					c.Fail("parser-reuse:"+specs[j].Kind, fmt.Sprintf("%s compiled as number %d of a series made with ONE parse.Parser value (order %v) gives %+v, with a parser of its own %+v", specs[j].name(), i+1, jobs[:i+1], o, base[j]), rp)
+					break
+				}
+			}
+			c.HistN("parser-reuse:chain-compilations", len(jobs))
+		}
+	}
 	// (b) by k goroutines at once: specs without views (the parser's maps are written by view inference only) and, apart, all
 	var plain, viewy []int
 	for i, s := range specs {
@@ -1227,6 +1275,12 @@ func (r *runner) round3(specs []spec, base []outcome, phase func(string)) {
 		}
 	}
 	phase("parser-shared")
+
+	r.parserLife(pick(30, 400, 40), pick(12, 150, 16))
+	phase("parser-life")
+
+	r.refsStream(pick(120, 1500, 150), pick(4, 12, 4), pick(8, 30, 8), pick(1, 3, 1))
+	phase("refs")
 
 	if r.deaths < 3 {
 		r.sharedImports(c.Rng, 8, 8, pick(3, 20, 8))
